@@ -138,6 +138,9 @@ func main() {
 	case "sendinflight":
 		scenarioSendInFlight(*stacks)
 		return
+	case "fullqueue":
+		scenarioFullQueue(*stacks)
+		return
 	}
 	if err := os.MkdirAll(*out, 0o755); err != nil {
 		panic(err)
